@@ -13,6 +13,7 @@ from ..core import check, Violation, Rejected
 from ..sim import machine as M
 
 ID = "C07"
+IMPORTS = ['rig.machine_control.machine_controller']
 LEVEL = "fault_enumeration"
 TECHNIQUE = ("reference-model monitor: shadow memory vs simulated machine "
              "memory/write log after every API call; protocol monitor inside "
